@@ -147,7 +147,8 @@ DecClauses(n, i, v, dj, inp) ==
 EndClauses(e) ==
   LET parts == Range(e.parts)
       hdec == {x \in decs : x.n \in H}
-      bound == IF e.byzdelivered THEN 40 ELSE 6
+      bound == IF e.byzdelivered THEN 40 ELSE 6     \* "a bounded number of further rounds": calibrated in DESIGN.md section 6 C06
+      gmax == LET rs == {p.gstround : p \in parts} IN CHOOSE x \in rs : \A y \in rs : y <= x
   IN
   {<<"C02_HonestPrefix", \A x \in hdec : \E y \in inputs : y.i = x.i /\ y.n \in H /\ IsPrefix(x.v, y.c)>>,
    <<"C02_UniformDecidesInput", Cfg.uniform => \A x \in hdec : x.v = InputOf(inputs, x.n, x.i)>>,
@@ -155,7 +156,7 @@ EndClauses(e) ==
    \* C06: after stabilisation every started honest participant decides within the round bound
    <<"C06_DecidesWithinBound",
       (e.gst > 0 /\ e.gstpassed /\ e.reason # "maxsteps") =>
-         \A p \in parts : (p.started /\ ~p.crashed) => (p.decided = e.insts /\ e.reason = "done")>>,
+         \A p \in parts : (p.started /\ ~p.crashed) => (p.decided = e.insts /\ e.reason = "done" /\ p.maxround <= gmax + bound)>>,
    <<"Conf_RunBudget", e.reason # "maxsteps" \/ e.gst = 0>>}
 
 \* ------------------------------------------------------------------ the step
@@ -166,7 +167,8 @@ ActStep ==
   /\ LET n == Ev.n
          i == Ev.inst
          msg == IF Ev.ev = "Receive" THEN ToM(Ev.m) ELSE [i |-> 0]
-         d0 == IF Ev.ev = "Receive" THEN Append(dlv[n], msg) ELSE dlv[n]
+         \* a message refused by the late-binding checks of receiveOne (foreign base / supplemental data) is not part of what was delivered
+         d0 == IF Ev.ev = "Receive" /\ Ev.errclass # "latebinding" THEN Append(dlv[n], msg) ELSE dlv[n]
          I1 == IF Ev.ev = "Start" /\ Ev.input # Bot THEN inputs \cup {[n |-> n, i |-> i, c |-> Ev.input]} ELSE inputs
          os == {[n |-> n, i |-> x.i, r |-> x.r, ph |-> x.ph, v |-> x.v, j |-> x.j] : x \in {ToM(o) : o \in Range(Ev.out)}}
          O == outs \cup os
@@ -202,7 +204,7 @@ ActStep ==
 
 RejStep ==
   /\ Ev.ev = "Rejected"
-  /\ LET nb == IF Ev.byz THEN (IF adv = "script" THEN {} ELSE {"Conf_ByzMessageRejected"}) ELSE {"C07_EmitsValid"}
+  /\ LET nb == IF Ev.byz THEN (IF adv = "script" \/ Ev.bad THEN {} ELSE {"Conf_ByzMessageRejected"}) ELSE {"C07_EmitsValid"}
      IN /\ bad' = bad \cup {<<l, c>> : c \in nb}
         /\ (nb = {} \/ Cardinality(bad) > 40 \/ PrintT(<<"VERIF_BAD", l, nb>>))
   /\ UNCHANGED <<dlv, outs, inputs, prog, decs, adv>>
